@@ -454,6 +454,43 @@ def run(ctx, replay=None):
     n = ctx.scale(400, 6000)
     budget = ctx.scale(40, 480)
     zoo_names = sorted(ZOO)
+    # the zero-width-chunk class first, ENUMERATED (every run, whatever the seed and the load): a source with a zero-width chunk
+    # at the start / in the middle / at the end of an axis (1-d and 2-d) under each operation whose raw chunks drop or move
+    # the empty block while the optimized form may keep it: unit / stepped / reversed slices cutting before, at and after
+    # the empty block, an elementwise op below the slice, diff, roll, flip, rechunk
+    def _zsrc(shape, chunks):
+        return {"op": "src", "shape": shape, "chunks": chunks, "mul": 3, "off": 1, "mod": 1 << 20, "out": "v1"}
+
+    zprogs = []
+    for shape, chunks in (([10], [[2, 3, 0, 5]]), ([10], [[0, 4, 6]]), ([10], [[4, 6, 0]]), ([6, 4], [[2, 0, 4], [4]]), ([3, 8], [[3], [3, 0, 5]])):
+        ax = 0 if len(shape) == 1 or 0 in chunks[0] else 1
+        n_ax = shape[ax]
+        full = [["s", None, None, 1]] * len(shape)
+
+        def idx(sl, ax=ax, full=full):
+            return [sl if k == ax else full[k] for k in range(len(full))]
+
+        for sl in (["s", None, 7, 1], ["s", 3, None, 1], ["s", 5, None, 1], ["s", 2, 5, 1], ["s", None, None, 2], ["s", None, None, -1], ["s", 6, 1, -1]):
+            zprogs.append([_zsrc(shape, chunks), {"op": "getitem", "args": ["v1"], "index": idx(sl), "out": "v2"}])
+            zprogs.append([_zsrc(shape, chunks), {"op": "affine", "args": ["v1"], "out": "v2"}, {"op": "getitem", "args": ["v2"], "index": idx(sl), "out": "v3"}])
+        zprogs.append([_zsrc(shape, chunks), {"op": "diff", "args": ["v1"], "axis": ax, "out": "v2"}])
+        for shift in (2, -3):
+            zprogs.append([_zsrc(shape, chunks), {"op": "roll", "args": ["v1"], "shift": shift, "axis": ax, "out": "v2"}])
+        zprogs.append([_zsrc(shape, chunks), {"op": "flip", "args": ["v1"], "axis": ax, "out": "v2"}])
+        zprogs.append([_zsrc(shape, chunks), {"op": "rechunk", "args": ["v1"], "chunks": [[n] for n in shape], "out": "v2"},
+                       {"op": "getitem", "args": ["v2"], "index": idx(["s", 3, None, 1]), "out": "v3"}])
+    for k, prog in enumerate(zprogs):
+        names = [st["out"] for st in prog]
+        for opt in (True, False):
+            case = {"prog": prog, "roots": [names[-1]], "zoo": None, "optimize": opt, "names": k % 3 == 0, "inplace": False, "zero_stream": True}
+            try:
+                fails = run_case(ctx, case)
+            except Exception:  # noqa: BLE001  (a program the DSL refuses: not part of the class)
+                break
+            if fails is None:
+                break
+            if fails:
+                report(ctx, case, fails)
     for it in range(n):
         if time.time() - t_run > budget:
             ctx.notes["stopped_early_at"] = it
